@@ -139,6 +139,188 @@ def _one(ctx, loop, spec):
         ctx.sample({"kind": kind, "path": path, "seq": seq, "apdu_len": len(apdu) - 1, "raw": raw[:48], "delivered": repr(t.payload)[:80]})
 
 
+# ---------------------------------------------------------------------------
+# through the real interface: frames that arrive while / right after the tunnel connects, and after stop() + start()
+# of the same XKNX with a re-exported keyring that lists an additional sender
+
+def _tagged(tag):
+    from xknx.dpt import DPTArray
+    from xknx.telegram.apci import GroupValueWrite
+
+    return GroupValueWrite(DPTArray((0xA5, tag & 0xFF, tag >> 8)))
+
+
+def _tag_of(t):
+    try:
+        v = t.payload.value.value
+        return (v[1] | (v[2] << 8)) if len(v) == 3 and v[0] == 0xA5 else None
+    except Exception:  # noqa: BLE001
+        return None
+
+
+def _interface_case(ctx, spec):
+    import os
+    import shutil
+    import tempfile
+
+    from vlib.ds_harness import (
+        KEYRING_PASSWORD,
+        InterfaceSession,
+        load_project_keyring,
+        make_project,
+        sync_keyring_loading,
+        write_project_keyring,
+    )
+    from xknx.io import SecureConfig
+
+    r = _PRng(spec["seed"])
+    keys = {int(g): bytes.fromhex(k) for g, k in spec["keys"].items()}
+    gas = sorted(keys)
+    tmp = tempfile.mkdtemp(prefix="dsec-c15-", dir="/dev/shm" if os.path.isdir("/dev/shm") else None)
+    path = os.path.join(tmp, "project.knxkeys")
+    state = {"tag": 0, "counter": 100}
+    expected = []  # (tag, phase, timing, sender)
+
+    def project(phase):
+        return make_project(keys, {int(a): n for a, n in spec["phases"][phase]["devices"].items()},
+                            {gas[0]: spec["phases"][phase]["interface_senders"]} if spec["phases"][phase]["interface_senders"] else None)
+
+    def frame(phase, timing):
+        senders = spec["phases"][phase]["senders"]
+        # after a restart favour the senders the new export added
+        added = [a for a in senders if phase and a not in spec["phases"][phase - 1]["senders"]]
+        sa = r.choice(added) if added and r.random() < 0.6 else r.choice(senders)
+        state["tag"] += 1
+        state["counter"] += r.choice((1, 2, 50))
+        ga = r.choice(gas)
+        raw = Node({ga: keys[ga]}, {}, own_address=sa, last_seq_sending=state["counter"]).secure_sync(
+            Telegram(destination_address=GroupAddress(ga), payload=_tagged(state["tag"])))
+        expected.append((state["tag"], phase, timing, sa, sa in added))
+        return raw
+
+    try:
+        with sync_keyring_loading():
+            if spec["mode"] == "file":
+                write_project_keyring(project(0), r, path)
+                cfg = SecureConfig(knxkeys_file_path=path, knxkeys_password=KEYRING_PASSWORD)
+            else:
+                cfg = SecureConfig(keyring=load_project_keyring(project(0), r))
+            s = InterfaceSession(spec["transport"], cfg)
+
+            async def main():
+                for phase in range(len(spec["phases"])):
+                    if phase:
+                        await s.xknx.stop()
+                        ctx.count("interface_restarts")
+                        if spec["mode"] == "file":
+                            write_project_keyring(project(phase), r, path)
+                        else:
+                            cfg.keyring = load_project_keyring(project(phase), r)
+                    s.burst = [frame(phase, "with-connect-response") for _ in range(spec["nburst"])]
+                    s.right_after = [frame(phase, "right-after-connect-response") for _ in range(spec["nafter"])]
+                    await s.xknx.start()
+                    for _ in range(spec["nlater"]):
+                        s.push(frame(phase, "later"), delay=0.02)
+                    await s.settle(0.5)
+                await s.xknx.stop()
+
+            try:
+                s.run(main())
+            except Exception as exc:  # noqa: BLE001 - connection trouble of the harness is never a verdict
+                ctx.inconclusive(f"interface case did not finish: {type(exc).__name__}: {exc}")
+                return
+            finally:
+                s.close()
+    finally:
+        shutil.rmtree(tmp, ignore_errors=True)
+    ctx.count("interface_cases")
+    ctx.count(f"interface_{spec['transport']}_{spec['mode']}")
+    got = [(_tag_of(t), t) for t in s.telegrams]
+    for tag, phase, timing, sa, added in expected:
+        ctx.ev()
+        hits = [t for g, t in got if g == tag]
+        ctx.distinct(("iface", spec["transport"], spec["mode"], phase > 0, timing, added, len(hits)))
+        wit = {"spec": spec, "phase": phase, "timing": timing, "sender": sa, "sender_added_by_new_keyring": added, "delivered": len(hits),
+               "key_issue_reports": len(s.issues)}
+        if len(hits) != 1:
+            if phase and added:
+                mech = "frame-from-sender-added-by-new-keyring-not-delivered-after-restart"
+            elif phase:
+                mech = f"genuine-frame-not-delivered-after-restart-{timing}"
+            else:
+                mech = f"genuine-frame-arriving-{timing}-not-delivered"
+            ctx.violation(mech if not hits else f"genuine-frame-delivered-{len(hits)}-times", wit,
+                          f"{spec['transport']}/{spec['mode']} phase {phase}: secured frame from {sa:#06x} arriving {timing}: {len(hits)} telegrams")
+            continue
+        ctx.check(hits[0].data_secure is True, "delivered-telegram-not-marked-data-secure", wit, "data_secure flag not set")
+        ctx.count("interface_frames_delivered")
+        ctx.count(f"interface_delivered_{timing}")
+        if phase:
+            ctx.count("interface_delivered_after_restart")
+        if added:
+            ctx.count("interface_delivered_from_added_sender")
+
+
+def _interface_spec(rng, i):
+    gas = rng.sample(range(1, 0x10000), rng.choice((1, 2)))
+    ias = rng.sample(range(0x100, 0xFFFF), 5)
+    phases = []
+    members = [ias[: rng.randrange(1, 4)]]
+    members.append(members[0] + [ias[3]] + ([ias[4]] if rng.random() < 0.4 else []))  # the re-export lists additional senders
+    for m in members:
+        via = [a for a in m if rng.random() < 0.3]
+        phases.append({"senders": m, "devices": {str(a): rng.choice((None, 0, rng.randrange(1, 50))) for a in m if a not in via},
+                       "interface_senders": via})
+    return {"transport": ("tcp", "udp")[i % 2], "mode": ("file", "object")[(i // 2) % 2], "keys": {str(g): rng.randbytes(16).hex() for g in gas},
+            "phases": phases, "nburst": 1 + i % 3, "nafter": (i // 3) % 3, "nlater": 1 + i % 2, "seed": rng.randrange(1 << 30)}
+
+
+# ---------------------------------------------------------------------------
+# the same CEMILData object secured again after its fields were changed
+
+def _reuse_case(ctx, rng):
+    from xknx.cemi import CEMILData
+
+    gas = rng.sample(range(1, 0x10000), 3)
+    srcs = rng.sample(range(1, 0x10000), 3)
+    keys = {g: rng.randbytes(16) for g in gas}
+    sender = Node(keys, {}, own_address=srcs[0], last_seq_sending=rng.randrange(1, 1 << 40))
+    receiver = Node(keys, {a: 0 for a in srcs}, own_address=0x00FD)
+    data = CEMILData.init_from_telegram(Telegram(destination_address=GroupAddress(gas[0]), payload=group_payload(rng, 2)),
+                                        src_addr=IndividualAddress(srcs[0]))
+    changed = "first"
+    for step in range(rng.randrange(3, 7)):
+        from xknx.cemi import CEMIFrame, CEMIMessageCode
+
+        from vlib.ds_harness import ind_from_req
+
+        secured = sender.ds.outgoing_cemi(data)
+        raw = ind_from_req(CEMIFrame(code=CEMIMessageCode.L_DATA_REQ, data=secured).to_knx())
+        out = receiver.feed(raw)
+        ctx.ev()
+        ctx.count("reused_cemi_data_sends")
+        ctx.distinct(("reuse", changed, out.kind()))
+        wit = {"changed_before_this_send": changed, "src": data.src_addr.raw, "dst": data.dst_addr.raw, "raw": raw, "outcome": out.kind(),
+               "keys": {str(g): k for g, k in keys.items()}}
+        ok = (len(out.delivered) == 1 and out.delivered[0].source_address == data.src_addr
+              and out.delivered[0].destination_address == data.dst_addr
+              and bytes(out.delivered[0].payload.to_knx()) == bytes(data.payload.to_knx()))
+        if not ok:
+            ctx.violation(f"reused-cemi-data-not-delivered-after-{changed}-changed", wit,
+                          f"CEMILData secured again after its {changed} was changed: receiver outcome {out.kind()}")
+            return
+        ctx.count("reused_cemi_data_delivered")
+        changed = rng.choice(("destination", "source", "payload", "tpci"))
+        if changed == "destination":
+            data.dst_addr = GroupAddress(rng.choice([g for g in gas if g != data.dst_addr.raw]))
+        elif changed == "source":
+            data.src_addr = IndividualAddress(rng.choice([a for a in srcs if a != data.src_addr.raw]))
+        elif changed == "payload":
+            data.payload = group_payload(rng, rng.choice((1, 3, 20)))
+        else:
+            data.tpci = tpci.TDataTagGroup() if isinstance(data.tpci, tpci.TDataGroup) else tpci.TDataGroup()
+
+
 class _WallClock:
     """Stands in for the module-level `time` of xknx.secure.data_secure (the harness owns wall time)."""
 
@@ -270,6 +452,15 @@ def run(ctx):
                 "delivered_after_restart_offset_0.0", "delivered_after_restart_offset_0.001", "delivered_after_restart_offset_0.999",
                 "delivered_after_restart_offset_2.0")
     reps = ctx.scale(3, 300)
+    # interface cases use a loop of their own each (the scripted gateway owns its loop): run them first
+    for i in range(ctx.scale(12, 480)):
+        spec = _interface_spec(rng, i)
+        if ctx.mine(i):
+            with observing_management():
+                _interface_case(ctx, spec)
+    ctx.require("interface_cases", "interface_restarts", "interface_delivered_with-connect-response",
+                "interface_delivered_right-after-connect-response", "interface_delivered_later", "interface_delivered_after_restart",
+                "interface_delivered_from_added_sender", "reused_cemi_data_delivered")
     loop = new_loop()
     idx = 0
     try:
@@ -293,6 +484,11 @@ def run(ctx):
                     spec = _restart_spec(rng, offset)
                     if ctx.mine((idx * 0x9E3779B1) >> 12):
                         _restart_case(ctx, loop, spec)
+            for i in range(ctx.scale(200, 20000)):
+                if ctx.mine(i):
+                    _reuse_case(ctx, rng)
+                else:
+                    rng.random()
             # other services (management style APDUs are what broadcast / tag frames carry in practice)
             if ctx.shard == 0 or not ctx.quick:
                 for payload in other_service_payloads(rng, ctx.scale(60, 40)):
@@ -306,10 +502,18 @@ def run(ctx):
 
 
 def replay(ctx, witness):
+    if "phases" in witness.get("spec", {}):
+        with observing_management():
+            _interface_case(ctx, witness["spec"])
+        ctx.distinct("replay")
+        ctx.distinct("replay2")
+        return
     loop = new_loop()
     try:
         with observing_management():
-            if "sessions" in witness["spec"]:
+            if "phases" in witness.get("spec", {}):
+                pass
+            elif "sessions" in witness["spec"]:
                 _restart_case(ctx, loop, witness["spec"])
             else:
                 _one(ctx, loop, witness["spec"])
